@@ -154,7 +154,10 @@ class Scope(object):
         self._list.append(token)
 
     def pop(self):
-        return self._list.pop()
+        # logging may have been switched on after the matching push
+        # was due (while a streaming decoder was suspended)
+        if self._list:
+            return self._list.pop()
 
 
 scope = Scope()
